@@ -13,6 +13,8 @@
 
 #include "pstrtod.h"
 
+#include <stdint.h>
+
 #include <ctype.h>
 #include <math.h>
 #include <limits>
@@ -85,10 +87,21 @@ pstrtod(const char *nptr, char **endptr) {
     }
 
   } else {
-    // Start reading decimal digits to the left of the decimal point.
+    // Accumulate the significant digits exactly in an integer and keep track
+    // of the power of ten it must be scaled by, so that the result is
+    // rounded only once.  (Summing digit * 0.1^k rounds at every step and
+    // gave e.g. 0.30000000000000004 for "0.3".)
     bool found_digits = false;
+    uint64_t mantissa = 0;
+    const uint64_t max_mantissa = (UINT64_MAX - 9) / 10;
+    double exponent = 0.0;
     while (isdigit(*p)) {
-      value = (value * 10.0) + (*p - '0');
+      if (mantissa <= max_mantissa) {
+        mantissa = mantissa * 10 + (uint64_t)(*p - '0');
+      } else {
+        // Too many digits to represent; drop it, but keep the magnitude.
+        exponent += 1.0;
+      }
       found_digits = true;
       ++p;
     }
@@ -96,12 +109,13 @@ pstrtod(const char *nptr, char **endptr) {
     if (*p == '.') {
       ++p;
       // Read decimal digits to the right of the decimal point.
-      double multiplicand = 0.1;
       while (isdigit(*p)) {
-        value += (*p - '0') * multiplicand;
+        if (mantissa <= max_mantissa) {
+          mantissa = mantissa * 10 + (uint64_t)(*p - '0');
+          exponent -= 1.0;
+        }
         ++p;
         found_digits = true;
-        multiplicand *= 0.1;
       }
     }
 
@@ -113,6 +127,8 @@ pstrtod(const char *nptr, char **endptr) {
       return 0.0;
     }
 
+    value = (double)mantissa;
+
     if (tolower(*p) == 'e') {
       // There's an exponent.
       ++p;
@@ -123,7 +139,6 @@ pstrtod(const char *nptr, char **endptr) {
         ++p;
       }
 
-      // Start reading decimal digits to the left of the decimal point.
       double evalue = 0.0;
       while (isdigit(*p)) {
         evalue = (evalue * 10.0) + (*p - '0');
@@ -131,10 +146,16 @@ pstrtod(const char *nptr, char **endptr) {
       }
 
       if (esign == '-') {
-        value /= pow(10.0, evalue);
+        exponent -= evalue;
       } else {
-        value *= pow(10.0, evalue);
+        exponent += evalue;
       }
+    }
+
+    if (exponent < 0.0) {
+      value /= pow(10.0, -exponent);
+    } else if (exponent > 0.0) {
+      value *= pow(10.0, exponent);
     }
   }
 
